@@ -718,7 +718,26 @@ func runSlices(c Single) ([][]int, bool) {
 	case "Chunk":
 		return xslices.Chunk(in, c.N), true
 	case "Join", "Flatten", "FlattenSlices":
-		return one(xslices.Join(c.Nest...)), true
+		// inputs with spare capacity behind their length (marked): Join returns a new slice
+		ins := make([][]int, len(c.Nest))
+		for i, x := range c.Nest {
+			b := make([]int, len(x)+3)
+			copy(b, x)
+			b[len(x)], b[len(x)+1], b[len(x)+2] = -7, -7, -7
+			ins[i] = b[:len(x)]
+		}
+		got := xslices.Join(ins...)
+		res := append([]int(nil), got...)
+		for i := range got {
+			got[i] = -99
+		}
+		for i, x := range c.Nest {
+			full := ins[i][:len(x)+3]
+			if !reflect.DeepEqual(norm(full[:len(x)]), norm(x)) || full[len(x)] != -7 || full[len(x)+1] != -7 || full[len(x)+2] != -7 {
+				return [][]int{{-996}}, true // the result aliases an input / Join wrote behind an input's length
+			}
+		}
+		return one(res), true
 	case "Runs":
 		return xslices.Runs(in, c.same), true
 	}
